@@ -95,6 +95,12 @@ CLAIMED["C09"] = {
     "note": "parse(Module)/parse(Expression) at offset 0 are the oracle here (their correctness is C01/C02); quick tier uses one rotating offset per text, thorough all four; known finding F-C09-1 (empty token stream has no position).",
     "technique": "TLA+ specification of the entry-point layer (classes x entry points) model-checked by TLC (views agree, translation invariance); TLC-emitted answer table replayed against every public entry point of the real parser at several start offsets",
 }
+CLAIMED["C11"] = {
+    "text": "Unparse.tla extends the generative grammar with U, a mirror of ast/src/unparse.rs (sixteen levels, the level handed to every child, group_if, yield/generator-argument/one-element-tuple/parameter-marker special forms). TLC checks RoundTripSafe on every expression tree PyBuild constructs (all 22 constructors with budget 3 quick / 4 thorough = every parent x child x side combination and every triple; operator, atom, comprehension and call sub-languages deeper): U's token sequence is the grammar's rendering R plus redundant parenthesis pairs only, so with C01 (R parses to the tree) and C08 (redundant parentheses do not change it) the unparser's output parses back to the tree. Conformance: the real unparser must print exactly U's tokens for every generated tree (token streams compared through the real lexer), its text must be accepted, parse to the same tree with ranges and contexts erased, and unparse to the same text. The same round trip runs on constant pools (floats from random bit patterns and boundaries, huge ints, radix forms, complex, str/bytes with every escape class and all byte values, prefixes) in eleven contexts, on f-strings (nested quotes, specs, conversions, debug text) and on the expressions of the corpus files.",
+    "design_ref": "DESIGN.md section 6 C11",
+    "note": "Within node budgets; f-strings and constants are not part of the TLA+ mirror (source tokens stand for constants there) and are covered by the round trip only; known finding F-C11-1 (f-string renderer escapes expression parts).",
+    "technique": "TLA+ mirror of the unparser's precedence machine checked by TLC against the generative grammar's need-parentheses rendering (alignment invariant); TLC-generated trees replayed: unparser tokens vs mirror, parse(unparse(t)) = t, fixed point",
+}
 NOT_YET = {}
 
 def main():
